@@ -2,6 +2,7 @@
    `<op> <params> | <script>`  →  `<sample(s)> <draws>` | `script-exhausted` | `bad-op` -/
 import CelerVerif.Model.Dist
 import CelerVerif.Model.DistEloss
+import CelerVerif.Model.DistIoni
 import CelerVerif.Num.F64
 import CelerVerif.Model.Util
 
@@ -85,6 +86,17 @@ def runOp (op : String) (p : List Nat) (s : List Float) : String :=
     fin s (((elossGamma (fl m) (fl v)).sample fuel s).map fun (x, _, r) => (x, r)) hx
   | "elgauss", [m, sd] => fin s (elossGauss (fl m) (fl sd) fuel s) hx
   | "elgaussv", [m, v] => fin s (elossGauss (fl m) (Float.sqrt (fl v)) fuel s) hx
+  | "moller", [em, mn, inc] => fin s ((Moller.mk' (fl em) (fl mn) (fl inc)).sample s) hx
+  | "bhabha", [em, mn, inc] => fin s ((Bhabha.mk' (fl em) (fl mn) (fl inc)).sample s) hx
+  | "bb", [_, pm, q, em, e, cut] =>
+    let d := BetheBloch.mk' ⟨fl pm, fl q, fl e, fl em, fl cut⟩
+    s!"{hx d.minEnergy} {hx d.maxEnergy} " ++ fin s (d.sample s) hx
+  | "bragg", [_, pm, q, em, e, cut, prm] =>
+    let d := Bragg.mk' ⟨fl pm, fl q, fl e, fl em, fl cut⟩ (fl prm)
+    s!"{hx d.minEnergy} {hx d.maxEnergy} " ++ fin s (d.sample s) hx
+  | "mubb", [_, pm, q, em, e, cut] =>
+    let d := MuBB.mk' ⟨fl pm, fl q, fl e, fl em, fl cut⟩
+    s!"{hx d.minEnergy} {hx d.maxEnergy} {boolStr d.useRad} {hx d.envelope} " ++ fin s (d.sample s) hx
   | "uparams", [_, a, b, c] =>
     let q := urbanParams (fl a) (fl b) (fl c)
     s!"{hx q.f1} {hx q.f2} {hx q.e1} {hx q.e2} {hx q.logE1} {hx q.logE2}"
